@@ -17,6 +17,7 @@ enum { OP_ACQ = 1, OP_ACQ_UPTO = 2, OP_REL = 3, OP_YIELD = 4, OP_SLEEP = 5 };
 struct Entry {
     struct aws_byte_buf buf;
     uint8_t *ptr;
+    size_t off; // offset inside the ring (addresses never enter fingerprints)
     size_t cap;
     uint64_t tag;
     int state; // 0 outstanding, 1 release invoked, 2 release returned
@@ -69,7 +70,7 @@ void do_acquire(Ctx &c, const sim::Op &op) {
     if (rc == AWS_OP_SUCCESS) {
         if (upto) check_buf(c, dest, mn, n, "acquire_up_to"); else check_buf(c, dest, n, n, "acquire");
         Entry e;
-        e.buf = dest; e.ptr = dest.buffer; e.cap = dest.capacity; e.state = 0;
+        e.buf = dest; e.ptr = dest.buffer; e.off = (size_t)(dest.buffer - c.ring.allocation); e.cap = dest.capacity; e.state = 0;
         e.tag = 0xC15000 + c.entries.size();
         pat::fill(e.ptr, e.cap, e.tag);
         c.entries.push_back(e);
@@ -189,7 +190,7 @@ RunInfo run(const sim::Plan &plan) {
         ri.nontrivial = ri.st.shared_objs >= 1 && ri.st.preemptions >= 1 && c.entries.size() >= 2;
     } else {
         uint64_t h = 15;
-        for (auto &e : c.entries) h = sim::mix64(h, ((uint64_t)(e.ptr - (uint8_t *)0) & 0xfff) * 65536 + e.cap);
+        for (auto &e : c.entries) h = sim::mix64(h, (uint64_t)e.off * 65536 + e.cap);
         h = sim::mix64(h, c.ring_size);
         for (auto &op : plan.ops) h = sim::mix64(h, (uint64_t)op.kind * 1000003 + (uint64_t)op.a * 31 + (uint64_t)op.b);
         ri.case_fp = h;
